@@ -44,6 +44,7 @@ RULE = (
     "current inside its window (or fail with the storage's own lookup error when the file/key was deleted under it), and after "
     "quiescence every lookup is checked strictly again (current source, repeatable, capacity); non-trivial there = a source "
     "change landed strictly inside an operation's invoke/return window."
+    " Loader kind pkg: PackageLoader over a package directory in the simulated file system (sequential and concurrent mode)."
     " Every third lookup passes a template-level global that no template reads (a new value each time): the lookup must behave exactly like one without globals."
 )
 ASSUMPTIONS = [
@@ -52,14 +53,15 @@ ASSUMPTIONS = [
     "single search path (the property's quantifier); ChoiceLoader / multi-directory shadowing not covered",
 ]
 REAL_STUB = {
-    "real": ["jinja2.Environment.get_template/select_template/_load_template", "LRUCache", "DictLoader/FunctionLoader/FileSystemLoader", "compiler (tiny templates)"],
+    "real": ["jinja2.Environment.get_template/select_template/_load_template", "LRUCache", "DictLoader/FunctionLoader/FileSystemLoader/PackageLoader/ChoiceLoader/PrefixLoader", "compiler (tiny templates)"],
     "stub": ["file system + clock (SimFS, SimClock) behind jinja2.loaders.os/open", "loader storage (mutable dict)",
              "thread scheduler (baton passing; sys.monitoring LINE/INSTRUCTION events) and threading.Lock -> SimLock in concurrent runs"],
 }
 BUDGET = {"quick": 26, "thorough": 600}
 NAMES = ("a", "b", "c")
 SIZES = (2, 0, 1, 3, -1, 400)
-KINDS = ("dict", "func-str", "func-triple", "fs", "fs2", "choice", "prefix", "choice-fs")
+KINDS = ("dict", "func-str", "func-triple", "fs", "fs2", "choice", "prefix", "choice-fs", "pkg")
+SIM_PACKAGE = "jv_simpkg"  # a package whose directory lives in the simulated file system (PackageLoader)
 _VER = re.compile(r"^\[?(\w+):v(\d+):7\]?$")
 CHILD = "k"  # a template that extends 'a' and wraps its block in [ ... super() ... ]; its own source never changes
 CHILD_SRC = "{% extends 'a' %}{% block b %}[{{ super() }}]{% endblock %}"
@@ -117,7 +119,7 @@ class Storage:
 
     @property
     def is_fs(self) -> bool:
-        return self.kind in ("fs", "fs2", "choice-fs")
+        return self.kind in ("fs", "fs2", "choice-fs", "pkg")
 
     def src(self, name: str, v: int) -> str:
         if name == CHILD:
@@ -215,6 +217,21 @@ class Storage:
 
                 return s, None, uptodate
             return jinja2.FunctionLoader(load)
+        if self.kind == "pkg":
+            # PackageLoader over a package directory in the simulated file system (same up-to-date rule as
+            # FileSystemLoader: the file exists and its mtime is the one read at load time)
+            import importlib.machinery
+            import sys
+            import types
+
+            root = F.ROOT.rstrip("/")
+            mod = types.ModuleType(SIM_PACKAGE)
+            spec = importlib.machinery.ModuleSpec(SIM_PACKAGE, loader=object(), is_package=True)
+            spec.submodule_search_locations = [root]
+            mod.__spec__ = spec
+            mod.__path__ = [root]
+            sys.modules[SIM_PACKAGE] = mod
+            return jinja2.PackageLoader(SIM_PACKAGE, self.dirs[0][len(root) + 1:])
         if self.kind == "choice-fs":
             # a failing delegate (I/O error) must not make the choice fall through to the shadowed copy
             return jinja2.ChoiceLoader([jinja2.FileSystemLoader(d_) for d_ in self.dirs])
@@ -398,7 +415,7 @@ def _cur_between(hist, name, lo, hi):
     return res
 
 
-CONC_KINDS = ("fs", "dict", "func-triple", "func-str")
+CONC_KINDS = ("fs", "dict", "func-triple", "func-str", "pkg")
 
 
 def run_concurrent(tape) -> Outcome:
@@ -560,7 +577,7 @@ def run_concurrent(tape) -> Outcome:
                     return out
             elif obs == "oserror":
                 deleted_in_window = any(inv < s_ < ret and v is None for n in req for (s_, v) in hist[n])
-                if not (kind == "fs" and deleted_in_window and isinstance(extra, FileNotFoundError)):
+                if not (kind in ("fs", "pkg") and deleted_in_window and isinstance(extra, FileNotFoundError)):
                     out.violate(("conc-unexpected-oserror",) + cfgsig, thread=tid, op=j, error=repr(extra))
                     return out
             elif obs == ("raised", "KeyError") and kind == "dict" and any(inv < s_ < ret and v is None for n in req for (s_, v) in hist[n]):
